@@ -196,7 +196,9 @@ class Inliner(object):
         ncallers = len(self.callers.get(fid, ()))
         if ncallers == 0:
             return False
-        return bool(d.get('internal') or d.get('private') or d.get('lambda'))
+        # ninja is a program, not a library: every caller of a function the rules never saw is in the analysed units,
+        # whatever its visibility (a public method added to a class is as much a helper as a static function)
+        return True
 
     # ------------------------------------------------------------------------------------------
     def inline_call(self, F, bi, ei, G):
@@ -429,6 +431,7 @@ def inline_helpers(facts, make_stable=None):
     helpers are inlined, decides whether a new local may be replaced by its initialiser (nothing the initialiser reads
     is written between the definition and a use)."""
     ndes = desugar_algorithms(facts)
+    ndes += desugar_minmax(facts)
     inl = Inliner(facts)
     inl.orig = copy.deepcopy({fid: facts['functions'][fid] for fid in inl.helpers})
     removed = inl.run()
@@ -499,6 +502,13 @@ def propagate_new_locals(facts, stable=None):
             for e in b['ev']:
                 if e.get('k') == 'decl':
                     defs.setdefault(e['n'], []).append(e)
+                    # `T& r = local;` (and the hidden `auto&& __range = local` of a range-for): the local is an object
+                    # something else refers to - a by-value snapshot stays a snapshot
+                    i = e.get('init')
+                    while isinstance(i, dict) and i.get('k') == 'cast':
+                        i = i.get('e')
+                    if '&' in (e.get('ty') or '') and isinstance(i, dict) and i.get('k') == 'var':
+                        bad.add(i['n'])
                 elif e.get('k') == 'asg':
                     l = e.get('l')
                     while isinstance(l, dict) and l.get('k') == 'cast':
@@ -649,6 +659,136 @@ ALGO = {'all_of': ('all', True), 'any_of': ('any', False), 'none_of': ('none', T
         'find_if': ('find', None), 'find_if_not': ('find_not', None), 'for_each': ('each', None)}
 
 
+def _desugar_into_container(facts, F, B, ei, E, last, seq):
+    """`std::transform(b, e, std::back_inserter(out), f)` is `for (it = b; it != e; ++it) out.push_back(f(*it));`;
+    `std::copy` appends `*it`, `std::copy_if` appends it when the predicate holds (std::inserter: `insert`)."""
+    args = E.get('args') or []
+    want = {'transform': 4, 'copy': 3, 'copy_if': 4}[last]
+    if len(args) != want:
+        return False
+    sink = args[2]
+    while isinstance(sink, dict) and sink.get('k') == 'cast':
+        sink = sink.get('e')
+    if not (isinstance(sink, dict) and sink.get('k') == 'call' and sink.get('args')):
+        return False
+    sk = _lastname(sink.get('name')).split('<')[0]
+    method = {'back_inserter': 'push_back', 'inserter': 'insert', 'front_inserter': 'push_front'}.get(sk)
+    if method is None:
+        return False
+    out = sink['args'][0]
+    lam = None
+    if want == 4:
+        if not (isinstance(args[3], dict) and args[3].get('k') == 'lambda' and args[3].get('fn') in facts['functions']):
+            return False
+        lam = facts['functions'][args[3]['fn']]
+        if len(lam.get('params') or []) != 1:
+            return False
+    k = 'alg%d' % seq
+    base = max(b['id'] for b in F['blocks']) + 1
+    H, BODY, PUSH, STEP, CONT = base, base + 1, base + 2, base + 3, base + 4
+    line = E.get('line')
+    it = {'k': 'var', 'n': 'it@' + k, 'vk': 'local', 'tk': 'record', 'ty': 'iterator'}
+    elem = {'k': 'call', 'name': 'iterator::operator*', 'op': '*', 'recv': dict(it), 'args': [], 'tk': (lam['params'][0].get('tk') if lam else None)}
+    cmp_ = {'k': 'call', 'name': 'operator!=', 'op': '!=', 'args': [dict(it), copy.deepcopy(args[1])], 'tk': 'bool'}
+    cty = (out.get('ty') or 'std::vector').replace('&', '').strip() if isinstance(out, dict) else 'std::vector'
+    call = None
+    if lam is not None:
+        call = {'k': 'call', 'name': lam['name'], 'fn': lam['id'], 'op': '()', 'args': [elem], 'tk': lam.get('retk'), 'line': line}
+    value = call if last == 'transform' else elem
+    push = {'k': 'call', 'name': '%s::%s' % (cty, method), 'recv': copy.deepcopy(out), 'args': [copy.deepcopy(value)], 'disc': True,
+            'line': line, 'src': '%s.%s(%s)' % ((out.get('n') if isinstance(out, dict) else None) or 'out', method, 'f(*it)' if last == 'transform' else '*it')}
+    cont = {'id': CONT, 'ev': B['ev'][ei + 1:], 'succ': B.get('succ', [])}
+    if 'term' in B:
+        cont['term'] = B['term']
+        del B['term']
+    drop = {id(x) for x in B['ev'][:ei] if (x.get('k') == 'fnref' and lam is not None and x.get('fn') == lam['id']) or
+            (x.get('k') == 'call' and _call_key(x) == _call_key(sink) and x.get('fn') == sink.get('fn'))}
+    B['ev'] = [x for x in B['ev'][:ei] if id(x) not in drop] + \
+        [{'k': 'decl', 'n': it['n'], 'init': copy.deepcopy(args[0]), 'ty': 'iterator', 'tk': 'record', 'line': line, 'src': 'it = <first>'}]
+    B['succ'] = [H]
+    blocks = [{'id': H, 'ev': [dict(cmp_, line=line, src='it != <last>')], 'succ': [BODY, CONT],
+               'term': {'kind': 'for', 'cond': cmp_, 'line': line, 'src': 'it != <last>'}}]
+    if last == 'transform':
+        blocks.append({'id': BODY, 'ev': [dict(call, src='f(*it)'), push], 'succ': [STEP]})
+    elif last == 'copy':
+        blocks.append({'id': BODY, 'ev': [push], 'succ': [STEP]})
+    else:
+        blocks.append({'id': BODY, 'ev': [dict(call, src='pred(*it)')], 'succ': [PUSH, STEP],
+                       'term': {'kind': 'if', 'cond': {kk: vv for kk, vv in call.items() if kk != 'line'}, 'line': line, 'src': 'pred(*it)'}})
+        blocks.append({'id': PUSH, 'ev': [push], 'succ': [STEP]})
+    blocks.append({'id': STEP, 'ev': [{'k': 'asg', 'op': '++', 'l': dict(it), 'line': line, 'src': '++it'}], 'succ': [H]})
+    F['blocks'].extend(blocks)
+    F['blocks'].append(cont)
+    return True
+
+
+def desugar_minmax(facts):
+    """`x = std::max(x, y);` is `if (x < y) x = y;` (`std::min`: `if (y < x) x = y;`): rewritten so that the
+    comparison and the conditional store are seen like the hand-written form."""
+    n = 0
+    for fid, F in facts['functions'].items():
+        for _ in range(8):
+            done = True
+            for B in F['blocks']:
+                for ei, E in enumerate(B['ev']):
+                    if E.get('k') != 'asg' or E.get('op') != '=':
+                        continue
+                    r = E.get('r')
+                    while isinstance(r, dict) and r.get('k') == 'cast':
+                        r = r.get('e')
+                    if not (isinstance(r, dict) and r.get('k') == 'call' and (r.get('name') or '').startswith('std::') and
+                            _lastname(r.get('name')).split('<')[0] in ('max', 'min') and len(r.get('args') or []) == 2):
+                        continue
+                    l = E['l']
+
+                    def bare(d):
+                        while isinstance(d, dict) and d.get('k') == 'cast':
+                            d = d.get('e')
+                        return d
+                    a0, a1 = r['args']
+                    if json_eq(bare(a0), bare(l)):
+                        other = a1
+                    elif json_eq(bare(a1), bare(l)):
+                        other = a0
+                    else:
+                        continue
+                    if not (isinstance(bare(l), dict) and bare(l).get('k') in ('var', 'mem')):
+                        continue
+                    is_max = _lastname(r.get('name')).split('<')[0] == 'max'
+                    base = max(b['id'] for b in F['blocks']) + 1
+                    ST, CONT = base, base + 1
+                    cond = {'k': 'bin', 'op': '<', 'l': copy.deepcopy(l if is_max else other), 'r': copy.deepcopy(other if is_max else l), 'tk': 'bool'}
+                    cont = {'id': CONT, 'ev': B['ev'][ei + 1:], 'succ': B.get('succ', [])}
+                    if 'term' in B:
+                        cont['term'] = B['term']
+                    key = _call_key(r)
+                    B['ev'] = [x for x in B['ev'][:ei] if not (x.get('k') == 'call' and x.get('fn') == r.get('fn') and _call_key(x) == key)]
+                    B['succ'] = [ST, CONT]
+                    B['term'] = {'kind': 'if', 'cond': cond, 'line': E.get('line'), 'src': 'min/max'}
+                    F['blocks'].append({'id': ST, 'ev': [dict(E, r=copy.deepcopy(other))], 'succ': [CONT]})
+                    F['blocks'].append(cont)
+                    F.setdefault('desugared', []).append('minmax')
+                    n += 1
+                    done = False
+                    break
+                if not done:
+                    break
+            if done:
+                break
+    return n
+
+
+def json_eq(a, b):
+    import json
+    def clean(d):
+        if isinstance(d, dict):
+            return {k: clean(v) for k, v in d.items() if k not in ('line', 'src', 'col')}
+        if isinstance(d, list):
+            return [clean(x) for x in d]
+        return d
+    return json.dumps(clean(a), sort_keys=True) == json.dumps(clean(b), sort_keys=True)
+
+
 def desugar_algorithms(facts):
     """`std::all_of(b, e, [..](T x){..})` (any_of, none_of) in a function the rules know is rewritten
     into the loop it abbreviates - `for (it = b; it != e; ++it) if (!pred(*it)) {r = false; break;}` -
@@ -675,6 +815,13 @@ def desugar_algorithms(facts):
                     if E.get('k') != 'call':
                         continue
                     last = _lastname(E.get('name'))
+                    if (E.get('name') or '').startswith('std::') and last in ('transform', 'copy', 'copy_if'):
+                        if _desugar_into_container(facts, F, B, ei, E, last, n + 1):
+                            n += 1
+                            F.setdefault('desugared', []).append(last)
+                            changed = True
+                            break
+                        continue
                     if not (E.get('name') or '').startswith('std::') or last not in ALGO:
                         continue
                     args = E.get('args') or []
